@@ -422,16 +422,16 @@ func (s *session) place(rec arrow.RecordBatch) (off uint64, length int, ok bool)
 }
 
 // table decodes the allocation table from the header bytes of the second attachment,
-// at the documented offsets.
+// at the documented offsets (count u32 @16, 16-byte entries from @24).
 func (s *session) table() [][2]uint64 {
 	if s.peer == nil {
 		return nil
 	}
-	raw := s.peer.VerifHeaderBytes(vgirpc.ShmHeaderSize)
-	n := int(binary.LittleEndian.Uint32(raw[16:20]))
+	n := int(binary.LittleEndian.Uint32(s.peer.VerifHeaderBytes(24)[16:20]))
 	if n > vgirpc.ShmMaxAllocs {
 		n = vgirpc.ShmMaxAllocs
 	}
+	raw := s.peer.VerifHeaderBytes(24 + 16*n)
 	out := make([][2]uint64, 0, n)
 	for i := 0; i < n; i++ {
 		p := 24 + 16*i
